@@ -30,14 +30,6 @@ META = {
     "assumptions": ["xmlrpc.client.Transport.close() drops the cached connection; parse_response feeds the parser returned by getparser()"],
 }
 
-ALLOWED_STATE = {
-    "TransportMixIn": {"verbose", "additional_headers"},
-    "UnixTransport": {"_connection", "_extra_headers"},
-    "Transport": set(), "SafeTransport": set(),
-    "JSONTarget": {"data"}, "JSONParser": set(),
-    "ServerProxy": set(), "_Method": set(), "_Notify": set(),
-}
-
 
 def check(ck):
     prog = ck.prog
@@ -137,6 +129,33 @@ def check(ck):
             ck.require(g.return_exit.id not in reach, "C19.2", "%s: non-200 paths end in TransportError" % q.fn(fs), "no return on the false edge",
                        "a non-200 reply can lead to a normal return", q.loc(fs, b))
 
+    # on that path nothing but the response's own accessors and the TransportError constructor runs: anything else that can
+    # raise (decoding the body, formatting, parsing) would replace the TransportError by an exception without URL and status
+    from vlib.model import is_logging_call
+    fb2 = [n for n in g.live_nodes() if n.kind == "branch" and status_is_200(n, n.test) and not n.polarity]
+    n2b = 0
+    for b in fb2:
+        region = reachable_avoiding(g, b.id, set(r_.id for r_ in rz), lambda l: l != "exc")
+        for nid in sorted(region):
+            n_ = g.nodes[nid]
+            for c in node_calls(n_):
+                n2b += 1
+                own = isinstance(c.func, ast.Attribute) and c.func.attr in ("getheader", "getheaders", "read", "close", "isclosed") and \
+                    all(a[0] == "call" and a[1][0] == "attr" and a[1][2] == "getresponse" for a in prov.value_alts(prov.origin(g, n_, c.func.value)))
+                ck.require(own or is_logging_call(c), "C19.2", "%s: `%s` on the non-200 path" % (q.fn(fs), dump(c)[:40]), "accessor of the own response",
+                           "`%s` runs between the status test and `raise TransportError`: if it raises (a body that does not decode, an "
+                           "unexpected type), the caller gets that exception instead of the TransportError carrying URL and status"
+                           % dump(c)[:60], q.loc(fs, n_))
+    for rn in rz:
+        for i_, want_ in ((2, "reason"), (3, "msg")):
+            if len(rn.ast.exc.args) > i_:
+                a_ = rn.ast.exc.args[i_]
+                okk = all(t_[0] == "attr" and t_[2] == want_ and
+                          all(r_[0] == "call" and r_[1][0] == "attr" and r_[1][2] == "getresponse" for r_ in prov.value_alts(t_[1]))
+                          for t_ in prov.value_alts(prov.origin(g, rn, a_)))
+                ck.require(okk, "C19.2", "%s: TransportError(..., response.%s)" % (q.fn(fs), want_), "taken from the own response",
+                           "TransportError is raised with `%s` instead of the response's own %s" % (dump(a_), want_), q.loc(fs, rn))
+
     # ---- C19.5 the drain of a non-200 reply cannot wait for the end of the stream -----------------------------------------------
     # response.read() without a declared length reads until the peer closes: on the error path it may only run when the
     # reply declares a Content-Length, i.e. under the true edge of getheader("content-length"[, <falsy default>]).
@@ -220,27 +239,8 @@ def check(ck):
                        "JSONTarget.close returns %s" % prov.show(t)[:80], q.loc(fcl, rn))
     nb = [n for n in gc.live_nodes() if n.kind == "branch" and dump(n.test) == "self.data"]
     ck.require(bool(nb), "C19.3", "%s: empty-buffer test present" % q.fn(fcl), "`if not self.data`", "JSONTarget.close has no empty-buffer case", q.loc(fcl, fcl.node))
-    n3 = 0
-    for cname, allowed in ALLOWED_STATE.items():
-        if "jsonrpc." + cname not in prog.classes:
-            continue
-        ci = prog.cls("jsonrpc", cname)
-        clx = None
-        for fi in ci.methods.values():
-            if fi.name == "__init__":
-                continue
-            gg = cfg_of(fi)
-            for n in gg.live_nodes():
-                if n.kind != "stmt" or not isinstance(n.ast, (ast.Assign, ast.AugAssign)):
-                    continue
-                for tg in (n.ast.targets if isinstance(n.ast, ast.Assign) else [n.ast.target]):
-                    for sub in ([tg] + (list(tg.elts) if isinstance(tg, ast.Tuple) else [])):
-                        if isinstance(sub, ast.Attribute) and dump(sub.value) == "self":
-                            n3 += 1
-                            ck.require(sub.attr in allowed, "C19.3", "%s: store self.%s" % (q.fn(fi), sub.attr), "allowed cross-call state",
-                                       "`%s` keeps per-call data on the long-lived %s object (allowed cross-call state: %s): a later call can "
-                                       "observe a previous response" % (q.stmt_text(n)[:50], cname, sorted(allowed)), q.loc(fi, n))
-    ck.stat("client_state_stores", n3)
+    from rules import common as _cm19s
+    _cm19s.check_client_state(ck, "C19.3")
     from rules import common as _cm19
     _cm19.check_no_shared_mutable(ck, "C19.3", modules=("jsonrpc",))
     ck.floor("C19.3", 8)
